@@ -26,6 +26,9 @@ def gen(rng, tier):
             size = rng.choice([0, 1, 1000, 70000, 200000]) if l < 16 else rng.choice([1000, 60000])
             L.append("SC %d %d %s %d %d %d" % (Lv, l, rng.choice(KINDS), size, rng.randint(1, 9999), rng.choice([1, 2])))
             L.append("SS %d %d %s %d %d %d %d" % (Lv, l, rng.choice(KINDS), size, rng.randint(1, 9999), rng.choice([0, 1]), rng.choice([1000, 30000, 200000])))
+    # memory is not monotonic in the level: budgets taken at L must cover every l < L (streaming, source size unknown / large)
+    for Lv, l in [(13, 12), (16, 14), (16, 15), (17, 15), (18, 12), (18, 15), (14, 12), (17, 14)]:
+        L.append("SS %d %d %s %d %d 0 %d" % (Lv, l, rng.choice(["text", "mix"]), 60000, rng.randint(1, 9999), rng.choice([30000, 200000])))
     # one static context reused many times with small jobs (far below the budget)
     for Lv, l in [(3, 1), (19, 1), (7, 3), (12, 1)]:
         L.append("SC %d %d text %d %d %d" % (Lv, l, rng.choice([100, 2000]), rng.randint(1, 999), 140 if tier == "quick" else 400))
